@@ -341,6 +341,16 @@ class Interp:
                 fr.vars[v["id"]] = Cell(self.dom.copy_value(self.rvalue(v["init"], fr), t), v["name"])
         else:
             fr.vars[v["id"]] = Cell(self.dom.default_value(t, v, fr), v["name"])
+        for b in v.get("bindings") or ():
+            # `auto [a, b] = x;` / `auto& [a, b] = x;`: each name is a member/element of the hidden object v, or (tuple-like
+            # types) a hidden reference initialised with get<I>(v); either way an lvalue evaluated once, here
+            if b.get("e") is None:
+                raise AnalysisBroken("structured binding %s without a binding expression at %s" % (b.get("name"), ir.locstr(v)))
+            x = self.eval(b["e"], fr)
+            c = x if isinstance(x, Cell) else Cell(x, b["name"])
+            fr.vars[b["id"]] = c
+            if b.get("hold_id") is not None:
+                fr.vars[b["hold_id"]] = c
 
     # ------------------------------------------------------------------ expressions
     def truth(self, v, e, fr, loop=False):
@@ -427,6 +437,19 @@ class Interp:
         if k == "Lambda":
             return self.dom.make_lambda(e, fr)
         if k == "InitList":
+            t_ = (e.get("t") or "").replace("const ", "").strip()
+            c_ = self.prog.classes.get(t_)
+            if c_ is not None and not self.prog.fns(t_ + "::" + t_.split("::")[-1].split("<")[0]):
+                # aggregate initialisation of a struct of the program: members in declaration order, the rest default
+                obj = self.dom.new_object(t_, e, fr)
+                for fd, a in zip(c_["fields"], e["elems"]):
+                    ft = fd.get("t") or ""
+                    if ft.rstrip().endswith("&"):
+                        x = self.eval(a, fr)
+                        obj.f[fd["name"]] = x if isinstance(x, Cell) else Cell(x, fd["name"])
+                    else:
+                        obj.f[fd["name"]].set(self.dom.copy_value(self.rvalue(a, fr), ft))
+                return obj
             return self.dom.init_list(e, fr)
         if k == "ZeroInit":
             return 0
@@ -557,6 +580,27 @@ class Interp:
                 args = self.eval_args(fn, e["args"], fr)
                 self.call_function(fn, obj, args, e)
                 return obj
+        if k == "Construct" and not cands:
+            # a class of the program without a user-provided constructor for this call: implicit copy / move, value
+            # initialisation, or aggregate initialisation (members in declaration order)
+            cls = callee.rsplit("::", 1)[0] if "::" in callee else callee
+            c = self.prog.classes.get(cls)
+            if c is not None:
+                args = e["args"]
+                if (e.get("copy") or e.get("move")) and len(args) == 1:
+                    return self.dom.copy_value(self.rvalue(args[0], fr), cls)
+                if len(args) == 1 and args[0].get("k") == "InitList":
+                    return self.rvalue(args[0], fr)
+                obj = self.dom.new_object(cls, e, fr)
+                if len(args) <= len(c["fields"]):
+                    for fd, a in zip(c["fields"], args):
+                        t_ = fd.get("t") or ""
+                        if t_.rstrip().endswith("&"):
+                            x = self.eval(a, fr)
+                            obj.f[fd["name"]] = x if isinstance(x, Cell) else Cell(x, fd["name"])
+                        else:
+                            obj.f[fd["name"]].set(self.dom.copy_value(self.rvalue(a, fr), t_))
+                    return obj
         raise AnalysisBroken("call to %s not modelled at %s (in %s)" % (callee or ir.show(e), ir.locstr(e), fr.fn["qn"]))
 
     def pick_op(self, cands, e):
@@ -578,6 +622,14 @@ class Interp:
         c = [f for f in cands if len(f["params"]) == n]
         if len(c) == 1:
             return c[0]
+        if len(c) > 1 and e.get("l"):
+            # functions with internal linkage (anonymous namespace, static) may share a name across translation units: the
+            # one meant is the one defined in the file of the call
+            same = [f for f in c if f.get("l") and f["l"][0] == e["l"][0]]
+            if len(same) == 1:
+                return same[0]
+            if "(anonymous namespace)" in (e.get("callee") or "") and len(set(f["l"][0] for f in c if f.get("l"))) > 1 and not same:
+                raise AnalysisBroken("call of %s at %s: several internal-linkage definitions, none in the calling file" % (e.get("callee"), ir.locstr(e)))
         # disambiguate const / non-const overloads
         if "constm" in e:
             c2 = [f for f in c if f.get("constm") == e["constm"]]
@@ -661,7 +713,18 @@ class Domain:
         return int(e["v"])
 
     def global_var(self, e, fr):
-        raise AnalysisBroken("global %s not modelled" % e.get("qn"))
+        """a namespace-scope constant with an initialiser in the program (constexpr lookup tables, named constants): its
+        initialiser, evaluated once.  Mutable globals stay outside the model."""
+        qn = e.get("qn")
+        g = getattr(self.interp.prog, "globals", {}).get(qn) if self.interp is not None else None
+        if g is not None and g.get("init") is not None and ("const" in (g.get("t") or "") or "constexpr" in (g.get("t") or "")):
+            cache = self.__dict__.setdefault("_global_cache", {})
+            if qn not in cache:
+                gfr = Frame({"qn": "<initialiser of %s>" % qn, "params": [], "ret": ""}, None)
+                v = self.interp.rvalue(g["init"], gfr)
+                cache[qn] = v if isinstance(v, Cell) else Cell(v, qn)
+            return cache[qn]
+        raise AnalysisBroken("global %s not modelled" % qn)
 
     def field_hook(self, obj, e, fr):
         return NotImplemented
